@@ -13,7 +13,7 @@ RULE = ("exhaustive: every source made of 1-2 distinct weak (possibly incomplete
         "relative truncator lists; the parameter-combination guards; random: weak incomplete instances (m <= 7, "
         "n <= 6) whose orders share flattened sequences and differ in their tie structure, with coarse truncation, "
         "so that different orders collapse to one ballot; factorise_instance on random raw ballot lists with "
-        "repetitions; histories on one object / two objects alive at once (see ASSUMPTIONS). non-trivial = at least two source orders collapse to one ballot (from_ordinal) / the raw list "
+        "repetitions; conversions with 9-15 categories (category keys with two digits) in all three modes; histories on one object / two objects alive at once (see ASSUMPTIONS). non-trivial = at least two source orders collapse to one ballot (from_ordinal) / the raw list "
         "contains a repeated ballot (factorise_instance)")
 EXHAUSTIVE = {
     "quick": "sources of 1-2 distinct orders (all 25 non-empty weak orders over subsets of {1,2,3}; multiplicities "
@@ -578,7 +578,9 @@ def _stats_basic(c, r, mres):
         extra = []
     lab = extra + ["from_ordinal %s %s %s" % (kind, _mode(c), "collapse" if _collapsed(c, m) else "no-collapse"),
            "from_ordinal orders=%d" % len(c["payload"][2]),
-           "from_ordinal num_categories=%d" % m[1][4]]
+           "from_ordinal num_categories=%s" % (m[1][4] if m[1][4] < 9 else ("9" if m[1][4] == 9 else ">=10 (%s)" % _mode(c)))]
+    if m[1][4] >= 10 and any(b[-1] == [] for b in m[1][0]) and any(all(b) for b in m[1][0]):
+        lab.append("from_ordinal >=10 categories: a full ballot and a padded ballot (%s)" % _mode(c))
     if any(b and b[-1] == [] for b in m[1][0]):
         lab.append("from_ordinal some ballot padded")
     pl = c["payload"]
@@ -1009,8 +1011,61 @@ def shrink(c):
         yield x
 
 
+def long_source(rng, m):
+    """a long strict order, a long weak order, the reversed order cut short, and two short orders over m alternatives:
+    the long ones fill every category, the short ones need padding"""
+    alts = list(range(1, m + 1))
+    a = list(alts)
+    rng.shuffle(a)
+    src = [([[x] for x in a], rng.randint(1, 3))]
+    w = retie(rng, rng.sample(alts, m), 0.15)
+    src.append((w, rng.randint(1, 3)))
+    r = a[::-1][: rng.randint(m // 2, m - 1)]
+    src.append(([[x] for x in r], rng.randint(1, 3)))
+    src.append(([[a[0]], [a[1]]], rng.randint(1, 3)))
+    src.append((retie(rng, a[:3], 0.5), rng.randint(1, 3)))
+    seen, out = [], []
+    for o, mu in src:
+        if o not in seen:
+            seen.append(o)
+            out.append((o, mu))
+    return out, alts
+
+
+def many_categories_cases(tier, seed):
+    """conversions with 9 - 15 categories in all three modes (category keys "1", ..., "10", "11", ... : ten or more)"""
+    rng = random.Random(1000003 * seed + 910)
+    out = []
+    # the 9 / 10 / 11 boundary, deterministic: one strict order over 12 alternatives + a short one
+    long12 = [[x] for x in range(1, 13)]
+    src = [(long12, 2), ([[3], [1]], 1), ([[12, 11], [10]], 4)]
+    for k in range(7, 14):
+        out.append(fo_case(src, st=[1] * k, alts=list(range(1, 13)), exh=1, many=1))
+        out.append(fo_case(src, nic=[1] * k, alts=list(range(1, 13)), exh=1, many=1))
+        out.append(fo_case(src, rel=[1] * k, alts=list(range(1, 13)), exh=1, many=1))
+    for i in range(240 if tier == "quick" else 3000):
+        m = rng.randint(12, 16)
+        src, alts = long_source(rng, m)
+        k = rng.randint(8, 14)
+        mode = i % 3
+        if mode == 0:
+            t = [rng.choice([1, 1, 1, 2]) for _ in range(k)]
+            c = fo_case(src, st=t, alts=alts, rnd=1, many=1)
+        elif mode == 1:
+            t = [rng.choice([1, 1, 1, 2]) for _ in range(k)]
+            c = fo_case(src, nic=t, alts=alts, rnd=1, many=1)
+        else:
+            kk = rng.randint(10, m)
+            r = [1] * kk if rng.random() < 0.6 else [rng.choice([1, 1, 2]) for _ in range(kk)]
+            c = fo_case(src, rel=r, alts=alts, rnd=1, many=1)
+        if i % 4 == 3:
+            c = with_names(c, 1 + i % 5)
+        out.append(c)
+    return out
+
+
 def generate(tier, seed):
-    base = _generate2(tier, seed)
+    base = _generate2(tier, seed) + many_categories_cases(tier, seed)
     quick = tier == "quick"
     rng = random.Random(1000003 * seed + 5005)
     fo = [c for c in base if c["op"] == "c17.from_ordinal"]
